@@ -1582,6 +1582,14 @@ int ov_pcm_seek_page(OggVorbis_File *vf,ogg_int64_t pos){
            our page, right at the beginning of PCM data.  Set state
            and return. */
 
+        /* The page in hand is the first one with a granule position;
+           when the first packet spans several pages that is not the
+           first page of the link.  Go back so no packet data is skipped */
+        result=_seek_helper(vf,begin);
+        if(result) goto seek_error;
+        result=_get_next_page(vf,&og,-1);
+        if(result<0) goto seek_error;
+
         vf->pcm_offset=total;
 
         if(link!=vf->current_link || vf->ready_state<STREAMSET){
